@@ -62,7 +62,7 @@ def asynkit_monitor():
 # generation
 
 VALS = [0, 1, 2, 3]
-THROWN = ["E1", "E2", "GE", "CE", "BE", "RT", "KI", "SE"]
+THROWN = ["E1", "E2", "GE", "CE", "BE", "RT", "KI", "SE", "FE"]
 
 
 def gen_op(rng, in_parent=False):
@@ -101,7 +101,7 @@ def gen_block(rng, level, nlevels, depth, budget, in_call=False, nosusp=False):
             if rng.random() < 0.88:
                 m = rng.randint(0, level) if rng.random() < 0.5 else level
             else:
-                m = rng.randint(level + 1, 3) if level < 3 else 3
+                m = 3      # a monitor that never drives anything (levels use 0..2): always inactive
             out.append(("O", m, rng.randint(10, 99)))
         elif r < 0.40:
             out.append(("S", rng.randint(100, 199)))
@@ -380,10 +380,18 @@ class Real:
             self.olog.append(("exc", m, mp.canon_exc(e), self.M[m].state))
             out = f"exc {mp.canon_exc(e)}"
         else:
-            self.olog.append(("pend", m, mp.cv(y)))
-            out = f"pend {mp.cv(y)}"
+            yv = self.cvy(y)
+            self.olog.append(("pend", m, yv))
+            out = f"pend {yv}"
             return out, True
         return out, False
+
+    def cvy(self, y):
+        """canonical form of what a suspended call passes on: a value, or a request addressed to a monitor"""
+        if type(y).__name__ == "_OOBRequest":
+            idx = [i for i, mon in enumerate(self.M) if mon is y.monitor]
+            return f"req{idx[0] if idx else '?'}:{mp.cv(y.data)}"
+        return mp.cv(y)
 
     def call(self, m, fl, op):
         self.olog.append(("act", "call", op, self.pending is not None))
